@@ -117,20 +117,35 @@ theorem find_ins (p : Entry → Bool) (e : Entry) (l : List Entry) (h : Sorted l
             have : ¬ x.prio > e.prio := by omega
             simp [this]
 
+theorem not_mem_keys_of_lookup_none (t : Nat) (l : List (Nat × Nat)) (h : lookup t l = none) :
+    t ∉ l.map (·.1) := by
+  induction l with
+  | nil => simp
+  | cons x xs ih =>
+    obtain ⟨k, v⟩ := x
+    simp only [lookup] at h
+    split at h
+    · cases h
+    · rename_i hk
+      simp only [List.map_cons, List.mem_cons, not_or]
+      exact ⟨fun hh => hk (by simp [hh]), ih h⟩
+
 /-- The representation invariant relating a registry state to the registration history. -/
 structure Inv (W : World) (r : Reg) (regs : List Entry) : Prop where
   sorted : Sorted r.entries
   first  : ∀ t, r.entries.find? (fun e => e.det.matches W t) = best W t regs
   cache  : ∀ t f, lookup t r.cache = some f → ∃ e, best W t regs = some e ∧ e.fn = f
+  /-- a class is cached at most once (`self._cache` is a dict; `resolve` only stores what it did not find there) -/
+  nodup  : (r.cache.map (·.1)).Nodup
 
 theorem inv_init (W : World) (c : Bool) : Inv W { cacheOn := c } [] :=
-  ⟨by simp [Sorted], by intro t; simp [best], by intro t f h; simp [lookup] at h⟩
+  ⟨by simp [Sorted], by intro t; simp [best], by intro t f h; simp [lookup] at h, by simp⟩
 
 theorem inv_register (W : World) (r : Reg) (regs : List Entry) (e : Entry) (h : Inv W r regs) :
     Inv W (register r e) (regs ++ [e]) := by
   have hs : sortPrio (e :: r.entries) = ins e r.entries := by
     simp [sortPrio, sortPrio_of_sorted _ h.sorted]
-  refine ⟨?_, ?_, ?_⟩
+  refine ⟨?_, ?_, ?_, by simp [register]⟩
   · simp only [register, hs]; exact ins_sorted e _ h.sorted
   · intro t
     simp only [register, hs]
@@ -178,15 +193,18 @@ theorem resolve_spec (W : World) (r : Reg) (regs : List Entry) (t : Nat) (h : In
         | false => simpa [hco] using h
         | true =>
           simp only [if_true]
-          refine ⟨h.sorted, h.first, ?_⟩
-          intro t' f' hl
-          simp only [lookup] at hl
-          split at hl
-          · rename_i heq
-            have : t = t' := by simpa using heq
-            subst this
-            exact ⟨e, hb, by simpa using hl⟩
-          · exact h.cache t' f' hl
+          have hl0 : lookup t r.cache = none := by simpa [hco] using hc
+          refine ⟨h.sorted, h.first, ?_, ?_⟩
+          · intro t' f' hl
+            simp only [lookup] at hl
+            split at hl
+            · rename_i heq
+              have : t = t' := by simpa using heq
+              subst this
+              exact ⟨e, hb, by simpa using hl⟩
+            · exact h.cache t' f' hl
+          · simp only [List.map_cons, List.nodup_cons]
+            exact ⟨not_mem_keys_of_lookup_none t r.cache hl0, h.nodup⟩
 
 theorem run_refines (W : World) (ops : List Op) :
     ∀ (r : Reg) (regs : List Entry), Inv W r regs → (run W r ops).2 = specRun W regs ops := by
@@ -231,7 +249,7 @@ theorem C16_late_registration_effective (W : World) (c : Bool) (h : List Op) (e 
     (run W { cacheOn := c } (h ++ [.res t, .reg e, .res t])).2.getLast? =
       some (specResolve W (regsOf h ++ [e]) t) := by
   rw [C16_resolve_refines, specRun_append]
-  simp [specRun, regsOf]
+  simp [specRun]
 
 /-! ### Declarative reading of `best` (what "highest priority, most recent wins ties" means) -/
 
@@ -305,7 +323,493 @@ theorem C16_best_characterisation (W : World) (t : Nat) (regs : List Entry) (e :
       · exact h2 x hx hxm
       · simp at hx; subst hx; exact absurd hxm hm
 
-/-! ### Non-vacuity and the pre-fix behaviour (negation witnesses, replayed by the harness) -/
+theorem detClosure_iff (W : World) (cs : List Nat) (sub : Bool) (m a : Option Nat) (t : Nat) :
+    detClosure W cs sub m a t = true ↔
+      ((cs ≠ [] → (sub = true → ∃ c, c ∈ cs ∧ W.issub t c = true) ∧ (sub = false → t ∈ cs))
+       ∧ (∀ m', m = some m' → W.isinst t m' = true) ∧ (∀ a', a = some a' → W.hasattr t a' = true)) := by
+  cases sub <;> cases m <;> cases a <;> cases cs <;> simp [detClosure]
+
+theorem attrName_eq (a : RegArgs) (n : Nat) : a.attrName = some n ↔ a.attr = .name n := by
+  unfold RegArgs.attrName
+  cases a.attr <;> simp
+
+theorem C16_matches_iff_criteria (W : World) (a : RegArgs) (d : Det) (t : Nat) (h : registerOuter a = .ok d) :
+    d.matches W t = true ↔ Accepts W a t := by
+  unfold registerOuter at h
+  unfold Accepts
+  cases hd : a.detector with
+  | some k =>
+    rw [hd] at h
+    cases h
+    simp only [Det.matches]
+    cases W.custom k t <;> simp
+  | none =>
+    rw [hd] at h
+    simp only at h
+    split at h
+    · cases h
+    · split at h
+      · cases h
+      · split at h
+        · cases h
+        · cases h
+          simp only [Det.matches, detClosure_iff, attrName_eq]
+
+/-- the argument checks of the outer `register` accept exactly the calls that have something to match by -/
+theorem registerOuter_ok_iff (a : RegArgs) :
+    (∃ d, registerOuter a = .ok d) ↔
+      (a.detector = none →
+        (a.classes ≠ [] ∨ a.attr ≠ .absent ∨ a.metaclass ≠ none)
+        ∧ (∀ c, c ∈ a.classes → c ≠ .notClass) ∧ a.attr ≠ .notStr) := by
+  unfold registerOuter
+  cases hd : a.detector with
+  | some k => simp
+  | none =>
+    simp only [forall_const]
+    have hany : (a.classes.any (· == ClsArg.notClass)) = true ↔ ¬ ∀ c, c ∈ a.classes → c ≠ ClsArg.notClass := by
+      rw [List.any_eq_true]
+      constructor
+      · rintro ⟨x, hx, hxe⟩ hall
+        exact hall x hx (by simpa using hxe)
+      · intro hn
+        apply Classical.byContradiction
+        intro hne
+        apply hn
+        intro c hc hce
+        exact hne ⟨c, hc, by simp [hce]⟩
+    have hempty : (a.classes.isEmpty && a.attr == AttrArg.absent && a.metaclass.isNone) = true ↔
+        ¬ (a.classes ≠ [] ∨ a.attr ≠ AttrArg.absent ∨ a.metaclass ≠ none) := by
+      cases a.classes <;> cases a.attr <;> cases a.metaclass <;> simp
+    have hattr : (a.attr == AttrArg.notStr) = true ↔ ¬ a.attr ≠ AttrArg.notStr := by
+      cases a.attr <;> simp
+    by_cases h1 : (a.classes.isEmpty && a.attr == AttrArg.absent && a.metaclass.isNone) = true
+    · have := hempty.mp h1
+      simp only [h1, if_true]
+      constructor
+      · rintro ⟨d, hd⟩; cases hd
+      · intro h; exact absurd h.1 this
+    · have h1' : a.classes ≠ [] ∨ a.attr ≠ AttrArg.absent ∨ a.metaclass ≠ none :=
+        Classical.byContradiction fun hh => h1 (hempty.mpr hh)
+      simp only [h1]
+      by_cases h2 : (a.classes.any (· == ClsArg.notClass)) = true
+      · have := hany.mp h2
+        simp only [h2, if_true]
+        constructor
+        · rintro ⟨d, hd⟩; cases hd
+        · intro h; exact absurd h.2.1 this
+      · have h2' : ∀ c, c ∈ a.classes → c ≠ ClsArg.notClass :=
+          Classical.byContradiction fun hh => h2 (hany.mpr hh)
+        simp only [h2]
+        by_cases h3 : (a.attr == AttrArg.notStr) = true
+        · have := hattr.mp h3
+          simp only [h3, if_true]
+          constructor
+          · rintro ⟨d, hd⟩; cases hd
+          · intro h; exact absurd h.2.2 this
+        · have h3' : a.attr ≠ AttrArg.notStr := Classical.byContradiction fun hh => h3 (hattr.mpr hh)
+          simp only [h3]
+          exact ⟨fun _ => ⟨h1', h2', h3'⟩, fun _ => ⟨_, rfl⟩⟩
+
+theorem C16_register_accepted_iff (W : World) (r : Reg) (a : RegArgs) (f : Nat) :
+    (registerCall W r a f).2 = none ↔ WellFormed W a f := by
+  unfold WellFormed
+  rw [← registerOuter_ok_iff]
+  unfold registerCall
+  cases ho : registerOuter a with
+  | error e => simp
+  | ok d => cases hv : W.valid f <;> simp
+
+theorem C16_refused_registration_no_effect (W : World) (r : Reg) (a : RegArgs) (f : Nat)
+    (h : (registerCall W r a f).2 ≠ none) : (registerCall W r a f).1 = r := by
+  unfold registerCall at *
+  cases ho : registerOuter a with
+  | error e => rfl
+  | ok d =>
+    rw [ho] at h
+    cases hv : W.valid f with
+    | false => simp
+    | true => simp [hv] at h
+
+
+
+/-! ### `best`, both directions -/
+
+theorem best_none_forall (W : World) (t : Nat) :
+    ∀ l : List Entry, best W t l = none → ∀ x ∈ l, x.det.matches W t = false := by
+  intro l
+  induction l using Utv.List.rev_ind with
+  | nil => simp
+  | snoc l' a' ih' =>
+    intro hn x hx
+    rw [best_append] at hn
+    unfold upd at hn
+    by_cases hm' : a'.det.matches W t = true
+    · simp only [hm', if_true] at hn
+      split at hn
+      · cases hn
+      · split at hn <;> cases hn
+    · simp only [hm'] at hn
+      rcases List.mem_append.mp hx with h1 | h1
+      · exact ih' (by simpa using hn) x h1
+      · simp at h1; subst h1; simpa using hm'
+
+/-- no answer from the registrations exactly when none of them matches -/
+theorem C16_best_none_iff (W : World) (t : Nat) (regs : List Entry) :
+    best W t regs = none ↔ ∀ x ∈ regs, x.det.matches W t = false := by
+  refine ⟨best_none_forall W t regs, ?_⟩
+  induction regs using Utv.List.rev_ind with
+  | nil => intro _; rfl
+  | snoc l a ih =>
+    intro h
+    rw [best_append, ih (fun x hx => h x (by simp [hx]))]
+    have : a.det.matches W t = false := h a (by simp)
+    simp [upd, this]
+
+
+
+theorem best_keep (W : World) (t : Nat) (l : List Entry) (e : Entry) (h : best W t l = some e) :
+    ∀ l₂ : List Entry, (∀ x ∈ l₂, x.det.matches W t = true → x.prio < e.prio) → best W t (l ++ l₂) = some e := by
+  intro l₂
+  induction l₂ using Utv.List.rev_ind with
+  | nil => intro _; simpa using h
+  | snoc l' a ih =>
+    intro hlt
+    rw [← List.append_assoc, best_append, ih (fun x hx => hlt x (by simp [hx]))]
+    unfold upd
+    by_cases hm : a.det.matches W t = true
+    · have := hlt a (by simp) hm
+      have : ¬ a.prio ≥ e.prio := by omega
+      simp [hm, this]
+    · simp [hm]
+
+/-- the converse of `C16_best_characterisation`: an occurrence that matches, is not outranked by an earlier match and
+outranks every later match is the answer -/
+theorem C16_best_of_split (W : World) (t : Nat) (l₁ l₂ : List Entry) (e : Entry)
+    (hm : e.det.matches W t = true)
+    (h1 : ∀ x ∈ l₁, x.det.matches W t = true → x.prio ≤ e.prio)
+    (h2 : ∀ x ∈ l₂, x.det.matches W t = true → x.prio < e.prio) :
+    best W t (l₁ ++ e :: l₂) = some e := by
+  have hfront : best W t (l₁ ++ [e]) = some e := by
+    rw [best_append]
+    unfold upd
+    simp only [hm, if_true]
+    cases hb : best W t l₁ with
+    | none => rfl
+    | some b =>
+      obtain ⟨a, c, hl, hbm, _, _⟩ := C16_best_characterisation W t l₁ b hb
+      have : b.prio ≤ e.prio := h1 b (by simp [hl]) hbm
+      have : e.prio ≥ b.prio := by omega
+      simp [this]
+  have := best_keep W t (l₁ ++ [e]) e hfront l₂ h2
+  simpa using this
+
+/-! ### histories of public calls against the property's sentence -/
+
+def detOf (a : RegArgs) : Det :=
+  match registerOuter a with
+  | .ok d => d
+  | .error _ => .custom 0
+
+def entryOf (x : Registration) : Entry := ⟨detOf x.args, x.fn, x.args.priority⟩
+
+def OkArgs (regs : List Registration) : Prop := ∀ x, x ∈ regs → ∃ d, registerOuter x.args = .ok d
+
+theorem matches_entryOf (W : World) (x : Registration) (t : Nat) (h : ∃ d, registerOuter x.args = .ok d) :
+    (entryOf x).det.matches W t = true ↔ Accepts W x.args t := by
+  obtain ⟨d, hd⟩ := h
+  have : (entryOf x).det = d := by simp [entryOf, detOf, hd]
+  rw [this]
+  exact C16_matches_iff_criteria W x.args d t hd
+
+/-- the specification function answers the `Chosen` converter -/
+theorem chosen_of_spec (W : World) (regs : List Registration) (t : Nat) (hok : OkArgs regs) :
+    Chosen W regs t (specResolve W (regs.map entryOf) t) := by
+  unfold specResolve
+  cases hs : W.shortcut t with
+  | some f => exact Chosen.shortcut f hs
+  | none =>
+    simp only
+    cases hb : best W t (regs.map entryOf) with
+    | none =>
+      refine Chosen.fallback hs ?_
+      intro x hx hacc
+      have := (C16_best_none_iff W t _).mp hb (entryOf x) (List.mem_map_of_mem hx)
+      rw [(matches_entryOf W x t (hok x hx)).mpr hacc] at this
+      cases this
+    | some e =>
+      obtain ⟨l₁, l₂, hl, hm, h1, h2⟩ := C16_best_characterisation W t _ e hb
+      obtain ⟨r₁, r₂', hr, hr1, hr2⟩ := List.map_eq_append_iff.mp hl
+      obtain ⟨x, r₂, hr2', hxe, hr2''⟩ := List.map_eq_cons_iff.mp hr2
+      subst hr hr2' hr1 hxe hr2''
+      have hxok := hok x (by simp)
+      refine Chosen.reg r₁ r₂ x hs rfl ((matches_entryOf W x t hxok).mp hm) ?_ ?_
+      · intro y hy hacc
+        exact h1 (entryOf y) (List.mem_map_of_mem hy) ((matches_entryOf W y t (hok y (by simp [hy]))).mpr hacc)
+      · intro y hy hacc
+        exact h2 (entryOf y) (List.mem_map_of_mem hy) ((matches_entryOf W y t (hok y (by simp [hy]))).mpr hacc)
+
+/-- … and nothing else is `Chosen`: the sentence determines the converter -/
+theorem spec_of_chosen (W : World) (regs : List Registration) (t : Nat) (o : Option Nat) (hok : OkArgs regs)
+    (h : Chosen W regs t o) : o = specResolve W (regs.map entryOf) t := by
+  unfold specResolve
+  cases h with
+  | shortcut f hs => simp [hs]
+  | reg l₁ l₂ e hs hl hacc h1 h2 =>
+    subst hl
+    have hb : best W t ((l₁ ++ e :: l₂).map entryOf) = some (entryOf e) := by
+      rw [List.map_append, List.map_cons]
+      apply C16_best_of_split
+      · exact (matches_entryOf W e t (hok e (by simp))).mpr hacc
+      · intro x hx hm
+        obtain ⟨y, hy, rfl⟩ := List.mem_map.mp hx
+        exact h1 y hy ((matches_entryOf W y t (hok y (by simp [hy]))).mp hm)
+      · intro x hx hm
+        obtain ⟨y, hy, rfl⟩ := List.mem_map.mp hx
+        exact h2 y hy ((matches_entryOf W y t (hok y (by simp [hy]))).mp hm)
+    rw [hs]; simp only; rw [hb]; rfl
+  | fallback hs hnone =>
+    have hb : best W t (regs.map entryOf) = none := by
+      rw [C16_best_none_iff]
+      intro x hx
+      obtain ⟨y, hy, rfl⟩ := List.mem_map.mp hx
+      cases hm : (entryOf y).det.matches W t with
+      | false => rfl
+      | true => exact absurd ((matches_entryOf W y t (hok y hy)).mp hm) (hnone y hy)
+    simp [hs, hb]
+
+/-- **C16, the sentence is a function.**  Among well-formed registrations at most one converter is `Chosen`. -/
+theorem C16_chosen_unique (W : World) (regs : List Registration) (t : Nat) (o₁ o₂ : Option Nat) (hok : OkArgs regs)
+    (h₁ : Chosen W regs t o₁) (h₂ : Chosen W regs t o₂) : o₁ = o₂ := by
+  rw [spec_of_chosen W regs t o₁ hok h₁, spec_of_chosen W regs t o₂ hok h₂]
+
+theorem calls_spec (W : World) (cs : List Call) :
+    ∀ (r : Reg) (regs : List Registration), Inv W r (regs.map entryOf) → OkArgs regs →
+      SpecCalls W regs cs (runCalls W r cs).2 := by
+  induction cs with
+  | nil => intro r regs _ _; exact SpecCalls.nil regs
+  | cons c cs ih =>
+    intro r regs hinv hok
+    cases c with
+    | register a f =>
+      simp only [runCalls]
+      have hacc := C16_register_accepted_iff W r a f
+      have hno := C16_refused_registration_no_effect W r a f
+      cases hrc : registerCall W r a f with
+      | mk r1 eo =>
+        rw [hrc] at hacc hno
+        cases eo with
+        | some e =>
+          simp only
+          have hr1 : r1 = r := hno (by simp)
+          subst hr1
+          exact SpecCalls.refused regs a f cs _ e (fun hw => by simpa using hacc.mpr hw) (ih _ _ hinv hok)
+        | none =>
+          simp only
+          have hwf : WellFormed W a f := hacc.mp rfl
+          obtain ⟨d, hd⟩ := (registerOuter_ok_iff a).mpr hwf.2
+          have hr1 : r1 = register r (entryOf ⟨a, f⟩) := by
+            have : registerCall W r a f = (register r ⟨d, f, a.priority⟩, none) := by
+              simp [registerCall, hd, hwf.1]
+            rw [this] at hrc
+            simp only [entryOf, detOf, hd]
+            exact (congrArg Prod.fst hrc).symm
+          subst hr1
+          refine SpecCalls.accepted regs a f cs _ hwf (ih _ _ ?_ ?_)
+          · simpa using inv_register W r _ (entryOf ⟨a, f⟩) hinv
+          · intro x hx
+            rcases List.mem_append.mp hx with hx | hx
+            · exact hok x hx
+            · simp at hx; subst hx; exact ⟨d, hd⟩
+    | resolve t =>
+      simp only [runCalls]
+      obtain ⟨ho, hi⟩ := resolve_spec W r _ t hinv
+      cases hres : resolve W r t with
+      | mk r1 o =>
+        rw [hres] at ho hi
+        simp only at ho hi ⊢
+        refine SpecCalls.resolve regs t cs _ o ?_ (ih _ _ hi hok)
+        rw [ho]
+        exact chosen_of_spec W regs t hok
+
+/-- **C16, in the property's own words.**  For every class world, with or without the lookup cache, every finite
+history of public calls `register(…)(f)` / `resolve(t)` on a fresh registry meets the specification `SpecCalls`: each
+resolve returns the `Chosen` converter for the well-formed registrations made before it (criteria = `Accepts`),
+ill-formed registrations are refused and change nothing. -/
+theorem C16_calls_meet_spec (W : World) (cacheOn : Bool) (h : List Call) :
+    SpecCalls W [] h (runCalls W { cacheOn := cacheOn } h).2 :=
+  calls_spec W h _ [] (by simpa using inv_init W cacheOn) (by intro x hx; cases hx)
+
+/-! ### a live base registry -/
+
+theorem matches_fallback (W : World) (g : Nat → Option Nat) (d : Det) (t : Nat) :
+    d.matches { W with fallback := g } t = d.matches W t := by
+  cases d <;> rfl
+
+theorem best_fallback (W : World) (g : Nat → Option Nat) (t : Nat) (regs : List Entry) :
+    best { W with fallback := g } t regs = best W t regs := by
+  rfl
+
+theorem inv_fallback (W : World) (g : Nat → Option Nat) (r : Reg) (regs : List Entry) (h : Inv W r regs) :
+    Inv { W with fallback := g } r regs := by
+  refine ⟨h.sorted, ?_, ?_, h.nodup⟩
+  · intro t
+    rw [best_fallback, ← h.first t]
+    rfl
+  · intro t f hl
+    rw [best_fallback]
+    exact h.cache t f hl
+
+theorem resolve_not_found (W : World) (r : Reg) (t : Nat) (h : found W r t = false) :
+    resolve W r t = (r, W.fallback t) := by
+  unfold found at h
+  simp only [Bool.or_eq_false_iff] at h
+  obtain ⟨⟨h1, h2⟩, h3⟩ := h
+  have hs : W.shortcut t = none := by cases hh : W.shortcut t <;> simp_all
+  have hc : (if r.cacheOn then lookup t r.cache else none) = none := by
+    cases hco : r.cacheOn with
+    | false => simp
+    | true => cases hl : lookup t r.cache <;> simp_all
+  have hf : r.entries.find? (fun e => e.det.matches W t) = none := by
+    rw [List.find?_eq_none]
+    intro x hx
+    have := List.any_eq_false.mp h3 x hx
+    simpa using this
+  simp only [resolve, hs, hc, hf]
+
+theorem resolve_found (W : World) (g : Nat → Option Nat) (r : Reg) (t : Nat) (h : found W r t = true) :
+    resolve { W with fallback := g } r t = resolve W r t := by
+  have hm : (fun e : Entry => e.det.matches { W with fallback := g } t) = fun e => e.det.matches W t := by
+    funext e; rw [matches_fallback]
+  unfold resolve
+  simp only [hm]
+  cases hs : W.shortcut t with
+  | some f => rfl
+  | none =>
+    simp only
+    cases hc : (if r.cacheOn then lookup t r.cache else none) with
+    | some f => rfl
+    | none =>
+      simp only
+      cases hf : r.entries.find? (fun e => e.det.matches W t) with
+      | some e => rfl
+      | none =>
+        exfalso
+        unfold found at h
+        have h3 : r.entries.any (fun e => e.det.matches W t) = false := by
+          rw [List.any_eq_false]
+          intro x hx
+          have := (List.find?_eq_none.mp hf) x hx
+          simpa using this
+        have h2 : (r.cacheOn && (lookup t r.cache).isSome) = false := by
+          cases hco : r.cacheOn with
+          | false => rfl
+          | true => simp [hco] at hc; simp [hc]
+        simp [hs, h2, h3] at h
+
+theorem resolve_state_fallback (W : World) (g : Nat → Option Nat) (r : Reg) (t : Nat) :
+    (resolve { W with fallback := g } r t).1 = (resolve W r t).1 := by
+  cases h : found W r t with
+  | true => rw [resolve_found W g r t h]
+  | false =>
+    rw [resolve_not_found W r t h]
+    have : found { W with fallback := g } r t = false := by
+      rw [← h]; unfold found
+      have hm : (fun e : Entry => e.det.matches { W with fallback := g } t) = fun e => e.det.matches W t := by
+        funext e; rw [matches_fallback]
+      rw [hm]
+    rw [resolve_not_found _ r t this]
+
+theorem run2_refines (W Wb : World) (ops : List Op2) :
+    ∀ (own base : Reg) (regs bregs : List Entry), Inv W own regs → Inv Wb base bregs →
+      run2 W Wb own base ops = specRun2 W Wb regs bregs ops := by
+  induction ops with
+  | nil => intros; rfl
+  | cons op ops ih =>
+    intro own base regs bregs ho hb
+    cases op with
+    | reg e => simpa [run2, specRun2] using ih _ _ _ _ (inv_register W own regs e ho) hb
+    | regBase e => simpa [run2, specRun2] using ih _ _ _ _ ho (inv_register Wb base bregs e hb)
+    | resBase t =>
+      obtain ⟨h1, h2⟩ := resolve_spec Wb base bregs t hb
+      simp only [run2, specRun2]
+      rw [h1, ih _ _ _ _ ho h2]
+    | res t =>
+      simp only [run2, specRun2]
+      -- the world the own registry sees: its fallback is what the base's registrations select
+      let g : Nat → Option Nat := fun t' => specResolve Wb bregs t'
+      obtain ⟨h1, h2⟩ := resolve_spec { W with fallback := g } own regs t (inv_fallback W g own regs ho)
+      obtain ⟨b1, b2⟩ := resolve_spec Wb base bregs t hb
+      have hst : (resolve W own t).1 = (resolve { W with fallback := g } own t).1 :=
+        (resolve_state_fallback W g own t).symm
+      have ho' : Inv W (resolve W own t).1 regs := by
+        rw [hst]
+        have := inv_fallback _ W.fallback _ regs h2
+        exact this
+      cases hf : found W own t with
+      | true =>
+        simp only [resolve2, hf, if_true]
+        have e := resolve_found W g own t hf
+        rw [← h1, e, ih _ _ _ _ ho' hb]
+      | false =>
+        simp only [resolve2, hf]
+        have hfg : found { W with fallback := g } own t = false := by
+          rw [← hf]; unfold found
+          have hm : (fun e : Entry => e.det.matches { W with fallback := g } t) = fun e => e.det.matches W t := by
+            funext e; rw [matches_fallback]
+          rw [hm]
+        have : specResolve { W with fallback := g } regs t = specResolve Wb bregs t := by
+          rw [← h1, resolve_not_found _ own t hfg]
+        simp only [Bool.false_eq_true, if_false]
+        rw [this, b1, ih _ _ _ _ ho' b2]
+
+
+/-- **C16 with a live base registry** (`TypeRegistry(base=…)`): registrations into the own registry and into its
+base, resolves of either, in any order, with either cache on or off — every resolve of the own registry answers from
+its own registrations so far and otherwise what the base's registrations so far select. -/
+theorem C16_base_registry_refines (W Wb : World) (c cb : Bool) (ops : List Op2) :
+    run2 W Wb { cacheOn := c } { cacheOn := cb } ops = specRun2 W Wb [] [] ops :=
+  run2_refines W Wb ops _ _ [] [] (inv_init W c) (inv_init Wb cb)
+
+/-- the registry state after any history satisfies the invariant (used to lift the T1 obligations over histories) -/
+theorem run_inv (W : World) (ops : List Op) :
+    ∀ (r : Reg) (regs : List Entry), Inv W r regs → Inv W (run W r ops).1 (regs ++ regsOf ops) := by
+  induction ops with
+  | nil => intro r regs h; simpa [run, runWith, regsOf] using h
+  | cons op ops ih =>
+    intro r regs h
+    cases op with
+    | reg e =>
+      have := ih _ _ (inv_register W r regs e h)
+      simpa [run, runWith, step, regsOf, List.append_assoc] using this
+    | res t =>
+      have := ih _ _ (resolve_spec W r regs t h).2
+      simpa [run, runWith, step, regsOf] using this
+
+/-- every registry state reachable from a fresh registry caches a class at most once — the hypothesis of the T1
+obligation `C16_gen_resolve` holds on every reachable state -/
+theorem C16_reachable_cache_keys_nodup (W : World) (c : Bool) (h : List Op) :
+    ((run W { cacheOn := c } h).1.cache.map (·.1)).Nodup :=
+  (run_inv W h _ [] (inv_init W c)).nodup
+
+/-! ### "…takes effect for the next conversion of that type and of its subclasses" -/
+
+/-- a registration for a class matches every subclass of it (`allow_subclasses=True`, the default) -/
+theorem subclass_registration_matches (W : World) (cl t' : Nat) (h : W.issub t' cl = true) :
+    (Det.std [cl] true none none).matches W t' = true := by
+  simp [Det.matches, detClosure, h]
+
+/-- A registration made after `t` *and another class `t'` it matches* (e.g. a subclass of the registered class)
+have been resolved — and cached — is what the next resolve of `t'` returns, provided no earlier matching
+registration outranks it. -/
+theorem C16_late_registration_reaches_subclasses (W : World) (c : Bool) (h : List Op) (e : Entry) (t t' : Nat)
+    (hs : W.shortcut t' = none) (hm : e.det.matches W t' = true)
+    (hp : ∀ x ∈ regsOf h, x.det.matches W t' = true → x.prio ≤ e.prio) :
+    (run W { cacheOn := c } (h ++ [.res t, .res t', .reg e, .res t'])).2.getLast? = some (some e.fn) := by
+  rw [C16_resolve_refines, specRun_append]
+  have hb := C16_best_of_split W t' (regsOf h) [] e hm hp (by simp)
+  simp [specRun, specResolve, hs, hb]
+
+/-! ### Non-vacuity, and the two fixed findings replayed on the pre-fix model -/
 
 def W₀ : World where
   issub t c := t == c || (t == 2 && c == 1)      -- class 2 is a subclass of class 1
@@ -319,19 +823,66 @@ def eA : Entry := ⟨.std [1] true none none, 10, 1⟩   -- register(C1, priorit
 def eB : Entry := ⟨.std [1] true none none, 20, 0⟩   -- register(C1)             -> f20
 def eC : Entry := ⟨.std [2] true none none, 30, 0⟩   -- register(C2)             -> f30
 
-/-- the fixed model: a later priority-0 registration does not override priority 1 … -/
+/-- the model: a later priority-0 registration does not override priority 1 … -/
 example : (run W₀ { cacheOn := true } [.reg eA, .reg eB, .res 1]).2 = [some 10] := by decide
 /-- … and a registration after a cached lookup takes effect. -/
 example : (run W₀ { cacheOn := true } [.reg eB, .res 2, .reg eC, .res 2]).2 = [some 20, some 30] := by
   decide
+/-- the hypotheses of `C16_late_registration_reaches_subclasses` are satisfiable with `t' ≠ t`, `t'` a proper
+subclass of the registered class and a cached earlier answer for `t'` -/
+example : W₀.shortcut 2 = none ∧ eA.det.matches W₀ 2 = true ∧
+    (∀ x ∈ regsOf [Op.reg eB, .res 2], x.det.matches W₀ 2 = true → x.prio ≤ eA.prio) ∧
+    (run W₀ { cacheOn := true } ([.reg eB, .res 2] ++ [.res 1, .res 2, .reg eA, .res 2])).2
+      = [some 20, some 20, some 20, some 10] := by decide
+/-- a reachable state whose cache is not empty (the `nodup` clause of `Inv` is about something) -/
+example : (run W₀ { cacheOn := true } [.reg eB, .res 2, .res 1, .res 2]).1.cache.map (·.1) = [1, 2] := by decide
 
-/-- Pre-fix code: priority 0 after a positive priority is inserted in front unsorted. -/
-theorem C16_legacy_unsorted_witness :
+def aSub : RegArgs := { classes := [.cls 1] }                                   -- register(C1)
+def aExact : RegArgs := { classes := [.cls 1], allowSub := false }              -- register(C1, allow_subclasses=False)
+def aNothing : RegArgs := {}                                                    -- register()            -> ValueError
+def aNotClass : RegArgs := { classes := [.cls 1, .notClass] }                   -- register(C1, 5)       -> AssertionError
+def aBadAttr : RegArgs := { classes := [.cls 1], attr := .notStr }              -- register(C1, attr=5)  -> AssertionError
+def W₁ : World := { W₀ with valid := fun f => f != 0 }                          -- target 0 is not callable
+
+/-- `WellFormed` holds of some calls and fails for each reason the code refuses a call (and the model reports the
+error the code raises) -/
+example : (runCalls W₁ { cacheOn := true }
+    [.register aSub 20, .resolve 2, .register aExact 30, .resolve 2, .resolve 1,
+     .register aNothing 40, .register aNotClass 41, .register aBadAttr 42, .register aSub 0, .resolve 2]).2
+    = [.conv (some 20), .conv (some 20), .conv (some 30),
+       .err .valueError, .err .assertionError, .err .assertionError, .err .typeError, .conv (some 20)] := by decide
+example : WellFormed W₁ aSub 20 ∧ ¬ WellFormed W₁ aNothing 40 ∧ ¬ WellFormed W₁ aNotClass 41
+    ∧ ¬ WellFormed W₁ aBadAttr 42 ∧ ¬ WellFormed W₁ aSub 0 := by
+  refine ⟨?_, ?_, ?_, ?_, ?_⟩ <;> simp [WellFormed, W₁, W₀, aSub, aNothing, aNotClass, aBadAttr]
+/-- exact-class matching is not subclass matching -/
+example : Accepts W₀ aSub 2 ∧ ¬ Accepts W₀ aExact 2 ∧ Accepts W₀ aExact 1 := by
+  refine ⟨?_, ?_, ?_⟩ <;> simp [Accepts, aSub, aExact, RegArgs.classIds, W₀]
+
+/-- `OkArgs` (hypothesis of `C16_chosen_unique`) holds of a list of accepted registrations, and `Chosen` picks the
+later of two equal-priority registrations that both accept the class -/
+example : OkArgs [⟨aSub, 20⟩, ⟨aExact, 30⟩] ∧ Chosen W₀ [⟨aSub, 20⟩, ⟨aExact, 30⟩] 1 (some 30) := by
+  have hok : OkArgs [⟨aSub, 20⟩, ⟨aExact, 30⟩] := by
+    intro x hx
+    simp only [List.mem_cons, List.not_mem_nil, or_false] at hx
+    rcases hx with rfl | rfl
+    · exact ⟨_, rfl⟩
+    · exact ⟨_, rfl⟩
+  exact ⟨hok, chosen_of_spec W₀ _ 1 hok⟩
+
+/-- a live base: a registration into the base after the own registry has answered from the base takes effect, and the
+own registry's registrations win over the base's whatever the priorities -/
+example : run2 W₀ W₀ { cacheOn := true } { cacheOn := true }
+    [.regBase eB, .res 2, .regBase eC, .res 2, .reg ⟨.std [1] true none none, 40, -5⟩, .res 2, .resBase 2]
+    = [some 20, some 30, some 40, some 30] := by decide
+
+/-- Pre-fix code (61137ef^; finding `prio0-unsorted`, fixed): priority 0 after a positive priority is inserted in
+front unsorted.  About `registerLegacy`, not about the current code. -/
+theorem legacy_unsorted_witness :
     (runLegacy W₀ { cacheOn := false } [.reg eA, .reg eB, .res 1]).2
       ≠ specRun W₀ [] [.reg eA, .reg eB, .res 1] := by decide
 
-/-- Pre-fix code: the cache is never invalidated. -/
-theorem C16_legacy_stale_cache_witness :
+/-- Pre-fix code (finding `stale-cache`, fixed): the cache is never invalidated. -/
+theorem legacy_stale_cache_witness :
     (runLegacy W₀ { cacheOn := true } [.reg eB, .res 2, .reg eC, .res 2]).2
       ≠ specRun W₀ [] [.reg eB, .res 2, .reg eC, .res 2] := by decide
 
